@@ -83,8 +83,7 @@ def check_thresh_perfect(rep, run: Run, D: Blocks):
     found_edge = found_perfect = 0
     total = sym.scale(sym.add(sym.Size(("rows", run.a)), sym.Size(("rows", run.b))), 2.0)
     for ev in run.events("compare"):
-        if ev["fi"] is not fi:
-            continue
+        owner = ev["fi"] or fi
         lhs, rhs, op = ev["lhs"], ev["rhs"], ev["op"]
         le = lhs.e if isinstance(lhs, Sc) else None
         re_ = rhs.e if isinstance(rhs, Sc) else None
@@ -130,7 +129,7 @@ def check_thresh_perfect(rep, run: Run, D: Blocks):
         rep.unmodelled("BN-PERFECT", fi, fi.node, "no test of the matching size was found")
     # label kinds: left labels are strings, right labels integers
     for ev in run.events("store"):
-        if ev["fi"] is fi and isinstance(ev["base"], DictV):
+        if isinstance(ev["base"], DictV):
             k = ev["idx"][0]
             v = ev["value"]
             if k[0] == "str" and isinstance(v, Bag) and v.elem[0] == "iv":
@@ -180,8 +179,10 @@ def check_bisect(rep, run: Run, D: Blocks):
                 and n.value.value.id == n.targets[0].id and isinstance(n.value.slice, ast.Slice):
             cand = n.targets[0].id
     if cand is None:
-        rep.unmodelled("BN-BISECT", fi, w, "search loop does not narrow a candidate array by slicing (different search "
-                                           "style)")
+        if _check_lohi(rep, run, D, fi, w):
+            return
+        rep.unmodelled("BN-BISECT", fi, w, "search loop neither narrows a candidate array by slicing nor is a recognised "
+                                           "lo/hi binary search (different search style)")
         return
     probe = None
     dname = None
@@ -268,7 +269,7 @@ def check_bisect(rep, run: Run, D: Blocks):
                                                "returned value is not a feasible cost")
     # candidate array derives from D by flatten/unique/sort only
     for ev in run.events("assign"):
-        if ev["fi"] is fi and ev["name"] == cand and isinstance(ev["value"], Bag):
+        if ev["name"] == cand and isinstance(ev["value"], Bag):
             b = ev["value"]
             if b.src == D.uid and b.elem == D.elem_choice():
                 rep.discharged("BN-THRESH", fi, ev["node"], "candidate thresholds are exactly the entries of the cost "
@@ -276,6 +277,96 @@ def check_bisect(rep, run: Run, D: Blocks):
             else:
                 rep.refuted("BN-THRESH", fi, ev["node"], "candidate thresholds are not the entries of the cost matrix")
             break
+
+
+def _check_lohi(rep, run, D, fi, w) -> bool:
+    """lo/hi binary search for the smallest feasible candidate: while lo < hi: mid = (lo+hi)//2;
+    feasible → hi = mid; infeasible → lo = mid+1; answer = candidates[lo] (inclusive upper end, last candidate feasible)"""
+    t = w.test
+    if not (isinstance(t, ast.Compare) and len(t.ops) == 1 and isinstance(t.ops[0], ast.Lt) and isinstance(t.left, ast.Name)
+            and isinstance(t.comparators[0], ast.Name)):
+        return False
+    lo, hi = t.left.id, t.comparators[0].id
+    mids = [n for n in w.body if isinstance(n, ast.Assign) and isinstance(n.targets[0], ast.Name)
+            and ast.unparse(n.value).replace(" ", "") in (f"({lo}+{hi})//2", f"{lo}+({hi}-{lo})//2", f"({hi}+{lo})//2")]
+    if not mids:
+        return False
+    mid = mids[0].targets[0].id
+    branch = [n for n in w.body if isinstance(n, ast.If)]
+    if len(branch) != 1:
+        return False
+    br = branch[0]
+
+    def upd(body):
+        out = {}
+        for st in body:
+            if isinstance(st, ast.Assign) and isinstance(st.targets[0], ast.Name) and st.targets[0].id in (lo, hi):
+                out[st.targets[0].id] = _affine_of(st.value, mid)
+        return out
+
+    a, b = upd(br.body), upd(br.orelse)
+    arms = {}
+    for u in (a, b):
+        if hi in u and lo not in u:
+            arms["feasible"] = u
+        elif lo in u and hi not in u:
+            arms["infeasible"] = u
+    if set(arms) != {"feasible", "infeasible"}:
+        rep.refuted("BN-BISECT", fi, br, "one arm of the feasibility branch does not move a search bound: the search loops "
+                                         "forever or ignores the verdict")
+        return True
+    kf, ki = arms["feasible"][hi], arms["infeasible"][lo]
+    if kf == 0:
+        rep.discharged("BN-BISECT", fi, br, f"feasible arm keeps the probe as the upper end ({hi} = {mid})")
+    elif isinstance(kf, int):
+        rep.refuted("BN-BISECT", fi, br, f"feasible arm sets {hi} = {mid}{kf:+d}: " + (
+            "the feasible probe itself is discarded although it may be the optimum" if kf < 0 else "the range does not shrink"))
+    else:
+        rep.unmodelled("BN-BISECT", fi, br, "unrecognised update of the upper bound")
+    if ki == 1:
+        rep.discharged("BN-BISECT", fi, br, f"infeasible arm excludes the probe ({lo} = {mid} + 1)")
+    elif isinstance(ki, int):
+        rep.refuted("BN-BISECT", fi, br, f"infeasible arm sets {lo} = {mid}{ki:+d}: " + (
+            "the infeasible probe stays in range and the loop never ends when the bounds are adjacent" if ki <= 0 else
+            "the candidate right above the probe is skipped and may be the optimum"))
+    else:
+        rep.unmodelled("BN-BISECT", fi, br, "unrecognised update of the lower bound")
+    # initial bounds and the answer
+    f = fi.node
+    inits = {}
+    for st in ast.walk(f):
+        if isinstance(st, ast.Assign) and st.lineno < w.lineno:
+            if isinstance(st.targets[0], ast.Tuple) and isinstance(st.value, ast.Tuple):
+                for tt, vv in zip(st.targets[0].elts, st.value.elts):
+                    if isinstance(tt, ast.Name) and tt.id in (lo, hi):
+                        inits[tt.id] = vv
+            elif isinstance(st.targets[0], ast.Name) and st.targets[0].id in (lo, hi):
+                inits[st.targets[0].id] = st.value
+    lo0 = inits.get(lo)
+    hi0 = inits.get(hi)
+    ok_init = lo0 is not None and isinstance(lo0, ast.Constant) and lo0.value == 0 and hi0 is not None and \
+        ast.unparse(hi0).replace(" ", "").startswith("len(") and ast.unparse(hi0).replace(" ", "").endswith(")-1")
+    if ok_init:
+        rep.discharged("BN-BISECT", fi, w, f"search starts on the whole candidate range [0, len−1]; the last (largest) candidate "
+                                           f"is always feasible")
+    else:
+        rep.unmodelled("BN-BISECT", fi, w, f"initial search bounds {ast.unparse(lo0) if lo0 is not None else '?'}, "
+                                           f"{ast.unparse(hi0) if hi0 is not None else '?'} not recognised")
+    ans = [st for st in ast.walk(f) if isinstance(st, ast.Assign) and st.lineno > w.end_lineno and isinstance(st.value, ast.Subscript)
+           and isinstance(st.value.slice, ast.Name) and st.value.slice.id == lo]
+    if ans:
+        cand = ast.unparse(ans[0].value.value)
+        rep.discharged("BN-BISECT", fi, ans[0], f"the distance is the candidate at the final lower bound ({ast.unparse(ans[0].value)})")
+        for ev in run.events("assign"):
+            if ev["name"] == cand and isinstance(ev["value"], Bag):
+                if ev["value"].elem == D.elem_choice():
+                    rep.discharged("BN-THRESH", fi, ev["node"], "candidate thresholds are exactly the entries of the cost matrix")
+                else:
+                    rep.refuted("BN-THRESH", fi, ev["node"], "candidate thresholds are not the entries of the cost matrix")
+                break
+    else:
+        rep.unmodelled("BN-BISECT", fi, w, "the value returned after the search was not recognised")
+    return True
 
 
 def check_order(rep, run: Run):
